@@ -98,7 +98,9 @@ class SafeAtoms(dict):
         dict.__init__(self)
         for key, value in atoms.items():
             if isinstance(value, str):
-                self[key] = value.replace('"', '\\"')
+                # one record must stay on one line whatever the client sent
+                self[key] = value.replace('"', '\\"').replace(
+                    '\r', '\\r').replace('\n', '\\n')
             else:
                 self[key] = value
 
